@@ -12,7 +12,7 @@ PROP = {
             "every case yields two evaluations (clause a: dump equality after every step; clause b: census not grown) so that a census leak does not hide the dump clause; "
             "distinct = hash of (file texts, config, setup, steps, clause); non-trivial = >= 2 files, >= 4 chunks and >= 1 step applied",
     "min_nontrivial": {"quick": 150, "thorough": 3000},
-    "max_secs": {"quick": 45, "thorough": 1000},
+    "max_secs": {"quick": 600, "thorough": 1500},
     "require_clauses": ["a:dump-equal-after-step", "b:census-not-grown", "step:resubmit", "step:batch-resubmit", "step:edit-restore"],
     "assumptions": COMMON_ASSUME + [
         "the observable dump (src/observe.rs: diagnostics with all codes enabled, semantic info of every name/string token, declarations with references and docs, "
